@@ -152,8 +152,7 @@ end
 
 def passClass (pass : String) (t : Node) : String :=
   if pass == "opt" then
-    (if optPushUnsafe t then "pushdown_right_past_join_key"
-     else if emptyFirstBranch t then "empty_first_union_branch_width"
+    (if emptyFirstBranch t then "empty_first_union_branch_width"
      else "unclassified")
   else if pass == "bs" then
     (if analyze t == .boolean && hasAggregate t then "aggregate_under_boolean_annotation" else "unclassified")
